@@ -189,9 +189,16 @@ def ev(e: Expr, pt: Point):
     if t == "opq":
         if e[1].startswith("unmodelled"):
             raise NotEvaluable(e[1])
-        if e not in pt.opq:
-            pt.opq[e] = float(pt.rng.randrange(0, 2 * pt.nrows))
-        return pt.opq[e]
+        # an uninterpreted function of its arguments: equal argument values give equal results
+        key = e
+        if e[2] and all(isinstance(d, Expr) for d in e[2]) and e[3] is None:
+            try:
+                key = (e[1],) + tuple(round(float(ev(d, pt)), 9) for d in e[2])
+            except (NotEvaluable, TypeError, ValueError):
+                key = e
+        if key not in pt.opq:
+            pt.opq[key] = float(pt.rng.randrange(0, 2 * pt.nrows)) if e[3] is not None or not e[2] else pt.rng.uniform(-2, 2)
+        return pt.opq[key]
     raise NotEvaluable(t)
 
 
